@@ -106,6 +106,18 @@ def check_edge_and_tree(R):
     except EXC as ex:
         R.case(("EdgeList", "exc"))
         R.fail("EdgeList/%s" % type(ex).__name__, "raises %s: %s" % (type(ex).__name__, str(ex)[:120]), estimator="EdgeList")
+    # supplied, non-contiguous label dictionaries: the fitted shape is max index + 1, not the number of labels
+    try:
+        ev = V.EdgeListVectorizer(row_label_dictionary={"r1": 0, "r2": 3}, column_label_dictionary={"c1": 2, "c2": 5}).fit(edges)
+        shape = ev._train_matrix.shape
+        for vname, data in (("one-edge", [("r1", "c1", 2.0)]), ("train", edges), ("high-index", [("r2", "c2", 1.0)])):
+            M = ev.transform(data)
+            R.case(("EdgeListSupplied", vname), sample=dict(estimator="EdgeList(supplied dictionaries)", variant=vname, shape=list(M.shape)))
+            if M.shape != shape:
+                R.fail("EdgeListSupplied/%s-shape" % vname, "transform shape %r, fitted shape %r (supplied non-contiguous dictionaries)" % (M.shape, shape), estimator="EdgeList", variant=vname)
+    except EXC as ex:
+        R.case(("EdgeListSupplied", "exc"))
+        R.fail("EdgeListSupplied/%s" % type(ex).__name__, "raises %s: %s" % (type(ex).__name__, str(ex)[:120]), estimator="EdgeList")
     try:
         A = sp.csr_matrix(np.array([[0, 1, 1, 0], [0, 0, 0, 1], [0, 0, 0, 0], [0, 0, 0, 0]]))
         trees = [(A, np.array(["x", "y", "y", "z"])), (sp.csr_matrix(np.array([[0, 1], [0, 0]])), np.array(["z", "x"]))]
